@@ -69,6 +69,7 @@ func extract(ctx context.Context, rs io.ReadSeeker, scanFunc func() osm.Scanner,
 	}
 
 	nprocs := runtime.GOMAXPROCS(-1)
+	nprocs = simNProcs(nprocs)
 	var passMX sync.Mutex
 
 	needAnotherPass := true
@@ -77,20 +78,26 @@ func extract(ctx context.Context, rs io.ReadSeeker, scanFunc func() osm.Scanner,
 
 		eg := new(errgroup.Group)
 		objChan := make(chan osm.Object, nprocs)
+		simSpawn(nprocs)
 		for i := 0; i < nprocs; i++ {
 			eg.Go(func() error {
+				simEnter()
+				defer simExit()
+				simBeforeRecv(objChan)
 				for obj := range objChan {
 					switch objType := obj.(type) {
 					case *osm.Node:
 						o.processNode(obj.(*osm.Node), keep, keepTags)
 					case *osm.Way:
 						if o.processWay(obj.(*osm.Way), keep, keepTags) {
+							simBeforeMutex(&passMX)
 							passMX.Lock()
 							needAnotherPass = true
 							passMX.Unlock()
 						}
 					case *osm.Relation:
 						if o.processRelation(obj.(*osm.Relation), keep, keepTags) {
+							simBeforeMutex(&passMX)
 							passMX.Lock()
 							needAnotherPass = true
 							passMX.Unlock()
@@ -99,6 +106,7 @@ func extract(ctx context.Context, rs io.ReadSeeker, scanFunc func() osm.Scanner,
 					default:
 						return fmt.Errorf("unknown type %T", objType)
 					}
+					simBeforeRecv(objChan)
 				}
 				return nil
 			})
@@ -109,8 +117,10 @@ func extract(ctx context.Context, rs io.ReadSeeker, scanFunc func() osm.Scanner,
 		}
 		scanner := scanFunc()
 		for scanner.Scan() {
+			simBeforeSend(objChan)
 			objChan <- scanner.Object()
 		}
+		simBeforeClose(objChan)
 		close(objChan)
 		if err := scanner.Err(); err != nil {
 			return nil, err
@@ -118,6 +128,7 @@ func extract(ctx context.Context, rs io.ReadSeeker, scanFunc func() osm.Scanner,
 		if err := scanner.Close(); err != nil {
 			return nil, err
 		}
+		simJoin()
 		if err := eg.Wait(); err != nil {
 			return nil, err
 		}
@@ -225,12 +236,14 @@ func hasTag(tags osm.Tags, wantTags map[string][]string) bool {
 }
 
 func (o *Data) hasNeedNode(id osm.NodeID) (has, need bool) {
+	simBeforeRW(&o.nodeMX, false)
 	o.nodeMX.RLock()
 	defer o.nodeMX.RUnlock()
 	if _, ok := o.Nodes[id]; ok {
 		has = true
 		return
 	}
+	simBeforeRW(&o.dependentNodeMX, false)
 	o.dependentNodeMX.RLock()
 	defer o.dependentNodeMX.RUnlock()
 	if _, ok := o.dependentNodes[id]; ok {
@@ -240,12 +253,14 @@ func (o *Data) hasNeedNode(id osm.NodeID) (has, need bool) {
 }
 
 func (o *Data) hasNeedWay(id osm.WayID) (has, need bool) {
+	simBeforeRW(&o.wayMX, false)
 	o.wayMX.RLock()
 	defer o.wayMX.RUnlock()
 	if _, ok := o.Ways[id]; ok {
 		has = true
 		return
 	}
+	simBeforeRW(&o.dependentWayMX, false)
 	o.dependentWayMX.RLock()
 	defer o.dependentWayMX.RUnlock()
 	if _, ok := o.dependentWays[id]; ok {
@@ -255,12 +270,14 @@ func (o *Data) hasNeedWay(id osm.WayID) (has, need bool) {
 }
 
 func (o *Data) hasNeedRelation(id osm.RelationID) (has, need bool) {
+	simBeforeRW(&o.relationMX, false)
 	o.relationMX.RLock()
 	defer o.relationMX.RUnlock()
 	if _, ok := o.Relations[id]; ok {
 		has = true
 		return
 	}
+	simBeforeRW(&o.dependentRelationMX, false)
 	o.dependentRelationMX.RLock()
 	defer o.dependentRelationMX.RUnlock()
 	if _, ok := o.dependentRelations[id]; ok {
@@ -276,6 +293,7 @@ func (o *Data) processNode(n *osm.Node, keep KeepFunc, keepTags bool) {
 		return
 	}
 	if keep(o, n) || needNode {
+		simBeforeRW(&o.nodeMX, true)
 		o.nodeMX.Lock()
 		o.Nodes[n.ID] = copyNode(n, keepTags)
 		o.nodeMX.Unlock()
@@ -288,6 +306,7 @@ func (o *Data) processNodeNoCopy(n *Node, keep KeepFunc, keepTags bool) {
 		return
 	}
 	if keep(o, n) || needNode {
+		simBeforeRW(&o.nodeMX, true)
 		o.nodeMX.Lock()
 		o.Nodes[n.ID] = n
 		o.nodeMX.Unlock()
@@ -302,11 +321,13 @@ func (o *Data) processWay(w *osm.Way, keep KeepFunc, keepTags bool) (anotherPass
 		return
 	}
 	if keep(o, w) || needWay {
+		simBeforeRW(&o.wayMX, true)
 		o.wayMX.Lock()
 		o.Ways[w.ID] = copyWay(w, keepTags)
 		o.wayMX.Unlock()
 		for _, n := range w.Nodes {
 			if _, needNode := o.hasNeedNode(n.ID); !needNode {
+				simBeforeRW(&o.dependentNodeMX, true)
 				o.dependentNodeMX.Lock()
 				o.dependentNodes[n.ID] = empty{}
 				o.dependentNodeMX.Unlock()
@@ -326,6 +347,7 @@ func (o *Data) processWayNoCopy(w *Way, keep KeepFunc, keepTags bool) (anotherPa
 		o.Ways[w.ID] = w
 		for _, n := range w.Nodes {
 			if _, needNode := o.hasNeedNode(n); !needNode {
+				simBeforeRW(&o.dependentNodeMX, true)
 				o.dependentNodeMX.Lock()
 				o.dependentNodes[n] = empty{}
 				o.dependentNodeMX.Unlock()
@@ -346,6 +368,7 @@ func (o *Data) processRelation(r *osm.Relation, keep KeepFunc, keepTags bool) (a
 		return
 	}
 	if keep(o, r) || needRelation {
+		simBeforeRW(&o.relationMX, true)
 		o.relationMX.Lock()
 		o.Relations[r.ID] = copyRelation(r, keepTags)
 		o.relationMX.Unlock()
@@ -353,6 +376,7 @@ func (o *Data) processRelation(r *osm.Relation, keep KeepFunc, keepTags bool) (a
 			switch m.Type {
 			case osm.TypeNode:
 				if _, needNode := o.hasNeedNode(osm.NodeID(m.Ref)); !needNode {
+					simBeforeRW(&o.dependentNodeMX, true)
 					o.dependentNodeMX.Lock()
 					o.dependentNodes[osm.NodeID(m.Ref)] = empty{}
 					o.dependentNodeMX.Unlock()
@@ -360,6 +384,7 @@ func (o *Data) processRelation(r *osm.Relation, keep KeepFunc, keepTags bool) (a
 				}
 			case osm.TypeWay:
 				if _, needWay := o.hasNeedWay(osm.WayID(m.Ref)); !needWay {
+					simBeforeRW(&o.dependentWayMX, true)
 					o.dependentWayMX.Lock()
 					o.dependentWays[osm.WayID(m.Ref)] = empty{}
 					o.dependentWayMX.Unlock()
@@ -367,6 +392,7 @@ func (o *Data) processRelation(r *osm.Relation, keep KeepFunc, keepTags bool) (a
 				}
 			case osm.TypeRelation:
 				if _, needR := o.hasNeedRelation(osm.RelationID(m.Ref)); !needR {
+					simBeforeRW(&o.dependentRelationMX, true)
 					o.dependentRelationMX.Lock()
 					o.dependentRelations[osm.RelationID(m.Ref)] = empty{}
 					o.dependentRelationMX.Unlock()
@@ -386,6 +412,7 @@ func (o *Data) processRelationNoCopy(r *Relation, keep KeepFunc, keepTags bool) 
 		return
 	}
 	if keep(o, r) || needRelation {
+		simBeforeRW(&o.relationMX, true)
 		o.relationMX.Lock()
 		o.Relations[r.ID] = r
 		o.relationMX.Unlock()
@@ -393,6 +420,7 @@ func (o *Data) processRelationNoCopy(r *Relation, keep KeepFunc, keepTags bool) 
 			switch m.Type {
 			case osm.TypeNode:
 				if _, needNode := o.hasNeedNode(osm.NodeID(m.Ref)); !needNode {
+					simBeforeRW(&o.dependentNodeMX, true)
 					o.dependentNodeMX.Lock()
 					o.dependentNodes[osm.NodeID(m.Ref)] = empty{}
 					o.dependentNodeMX.Unlock()
@@ -400,6 +428,7 @@ func (o *Data) processRelationNoCopy(r *Relation, keep KeepFunc, keepTags bool) 
 				}
 			case osm.TypeWay:
 				if _, needWay := o.hasNeedWay(osm.WayID(m.Ref)); !needWay {
+					simBeforeRW(&o.dependentWayMX, true)
 					o.dependentWayMX.Lock()
 					o.dependentWays[osm.WayID(m.Ref)] = empty{}
 					o.dependentWayMX.Unlock()
@@ -407,6 +436,7 @@ func (o *Data) processRelationNoCopy(r *Relation, keep KeepFunc, keepTags bool) 
 				}
 			case osm.TypeRelation:
 				if _, needR := o.hasNeedRelation(osm.RelationID(m.Ref)); !needR {
+					simBeforeRW(&o.dependentRelationMX, true)
 					o.dependentRelationMX.Lock()
 					o.dependentRelations[osm.RelationID(m.Ref)] = empty{}
 					o.dependentRelationMX.Unlock()
